@@ -17,7 +17,7 @@ FEATURES = [
     "libfilters", "libwriters", "uvs", "math", "color", "feature_text", "gdef_block",
     "kern_block", "fractional", "quadratic", "cubic", "ttx_data", "vertical",
     "prodnames_off", "meta", "instructions_off", "dottedcircle", "ds_skipexport",
-    "openinfo", "background_layer", "glyph_lib", "empty_glyph", "underline_pos",
+    "openinfo", "background_layer", "glyph_lib", "empty_glyph", "underline_pos", "ds5_vfs",
 ]
 
 # name, unicodes, kind
@@ -122,7 +122,7 @@ def _transform(rng, kind, frac):
     raise AssertionError(kind)
 
 
-def gen_family(rng, force=(), forbid=(), n_masters=None, max_glyphs=14):
+def gen_family(rng, force=(), forbid=(), n_masters=None, max_glyphs=14, p_sparse=0.35):
     """Return a family spec.  ``force``/``forbid``: feature names."""
     p_enable = rng.choice([0.25, 0.4, 0.55, 0.7])
     on = {f for f in FEATURES if rng.random() < p_enable}
@@ -254,7 +254,8 @@ def gen_family(rng, force=(), forbid=(), n_masters=None, max_glyphs=14):
                 if marks and rng.random() < 0.5:
                     glyphs[name]["components"].append([marks[-1][0], _transform(rng, "offset", spec["frac"])])
         if role == "mixed":
-            glyphs[name]["components"].append([base_names[-1], _transform(rng, rng.choice(tkinds), spec["frac"])])
+            mb = comps[0][1] if comps and rng.random() < 0.6 else base_names[-1]
+            glyphs[name]["components"].append([mb, _transform(rng, rng.choice(tkinds), spec["frac"])])
     # anchors
     for name, unis, role in roster:
         g = glyphs[name]
@@ -555,6 +556,7 @@ def gen_family(rng, force=(), forbid=(), n_masters=None, max_glyphs=14):
 
     # ------------------------------------------------------------- other masters
     axes = []
+    variable_fonts = []
     masters = [master0]
     sparse = []
     rules = []
@@ -594,9 +596,21 @@ def gen_family(rng, force=(), forbid=(), n_masters=None, max_glyphs=14):
             mk = _perturb_master(rng, master0, k, on, spec)
             mk["location"] = dloc(locs_user[k])
             masters.append(mk)
-        if n_masters >= 2 and rng.random() < 0.35 and naxes == 1 and n_masters == 2:
+        if n_masters >= 2 and rng.random() < p_sparse and naxes == 1 and n_masters == 2:
             # sparse intermediate master stored as a layer of master 0
-            sub = [n for n, _, r in roster if r in ("base", "mixed", "composite")][: rng.randint(1, 3)]
+            pool_sp = [n for n, _, r in roster if r in ("base", "mixed", "composite", "alt", "liga")
+                       or r.startswith("nested:") or r.startswith("mark")]
+            x_sp = rng.random()
+            if x_sp < 0.35:
+                # only glyphs that *use* components: their bases must be interpolated
+                dep = [n for n, _, r in roster if r in ("mixed", "composite") or r.startswith("nested:")]
+                rng.shuffle(dep)
+                pool_sp = dep + [n for n in pool_sp if n not in dep]
+                sub = pool_sp[: max(1, min(len(dep), rng.randint(1, 4)))]
+            else:
+                if x_sp < 0.7:
+                    rng.shuffle(pool_sp)  # e.g. a composite without its base, or only a base
+                sub = pool_sp[: rng.randint(1, 4)]
             lname = "Medium"
             lay = {}
             for n in sub:
@@ -618,6 +632,17 @@ def gen_family(rng, force=(), forbid=(), n_masters=None, max_glyphs=14):
             # instance design locations: interpolate the map if any
             instances.append({"styleName": "I%d" % i, "familyName": info["familyName"],
                               "user": inst})
+        if "ds5_vfs" in on and n_masters >= 2:
+            vf_info = {"familyName": info["familyName"] + " VF", "styleName": "Var",
+                       "versionMajor": 3, "trademark": "tm"}
+            if rng.random() < 0.5:
+                vf_info["openTypeOS2VendorID"] = "SIMV"
+            variable_fonts = [{"name": "SimVF", "axes": [a["name"] for a in axes], "lib": {"public.fontInfo": vf_info}}]
+            if rng.random() < 0.5:
+                variable_fonts.insert(0, {"name": "SimVF_plain", "axes": [a["name"] for a in axes], "lib": {}})
+            if naxes == 2 and rng.random() < 0.5:
+                variable_fonts.append({"name": "SimVF_wght", "axes": ["Weight"],
+                                       "lib": {"public.fontInfo": {"styleName": "WeightOnly"}} if rng.random() < 0.5 else {}})
         if "ds_skipexport" in on:
             prot = set(referenced_in_fea) | set(base_names[:2])
             for seq in lib.get("public.unicodeVariationSequences", {}).values():
@@ -630,7 +655,8 @@ def gen_family(rng, force=(), forbid=(), n_masters=None, max_glyphs=14):
             if cand:
                 dslib["public.skipExportGlyphs"] = [rng.choice(cand)]
     fam = {"features_on": sorted(on), "upm": upm, "axes": axes, "masters": masters,
-           "sparse": sparse, "rules": rules, "instances": instances, "dslib": dslib}
+           "sparse": sparse, "rules": rules, "instances": instances, "dslib": dslib,
+           "variable_fonts": variable_fonts}
     return fam
 
 
